@@ -12,8 +12,11 @@ package main
 // load is (load only adds lateness): with discard_overflow on at least one sample must be a discarded one, with it off
 // none may be.
 //
-// Observation: rc=<exit code|timeout|build> total=<N> fired=<lines that are not discarded samples> disc=<discarded samples>
+// pools=<k>: k identical pool sections (each with its own phout file) — the default has to reach every pool.
+//
+// Observation: rc=<exit code|timeout|build> total=<N*k> fired=<lines that are not discarded samples> disc=<discarded samples>
 // bad=<lines that carry only one of tag "discarded" / net code 777> served=<requests the target answered>
+// mindisc=<fewest discarded samples of a pool> (counts summed over the pools)
 
 import (
 	"bytes"
@@ -66,17 +69,17 @@ func runProc(m map[string]string) string {
 	bin, berr := buildPandora()
 	times, _ := strconv.Atoi(m["times"])
 	if bin == "" {
-		return fmt.Sprintf("rc=build total=%d fired=0 disc=0 bad=0 served=0 why=%s", times, strings.ReplaceAll(berr, " ", "_"))
+		return fmt.Sprintf("rc=build total=%d fired=0 disc=0 bad=0 served=0 mindisc=0 why=%s", times, strings.ReplaceAll(berr, " ", "_"))
 	}
 	lat, _ := strconv.Atoi(m["lat"])
 	dir, err := os.MkdirTemp("/var/tmp", "c04-proc-")
 	if err != nil {
-		return fmt.Sprintf("rc=tmpdir total=%d fired=0 disc=0 bad=0 served=0", times)
+		return fmt.Sprintf("rc=tmpdir total=%d fired=0 disc=0 bad=0 served=0 mindisc=0", times)
 	}
 	defer os.RemoveAll(dir)
 	ln, err := net.Listen("tcp", "127.0.0.1:0")
 	if err != nil {
-		return fmt.Sprintf("rc=listen total=%d fired=0 disc=0 bad=0 served=0", times)
+		return fmt.Sprintf("rc=listen total=%d fired=0 disc=0 bad=0 served=0 mindisc=0", times)
 	}
 	var served atomic.Int64
 	srv := &http.Server{Handler: http.HandlerFunc(func(w http.ResponseWriter, r *http.Request) {
@@ -95,9 +98,16 @@ func runProc(m map[string]string) string {
 	case "false":
 		opt = "    discard_overflow: false\n"
 	}
-	phout := filepath.Join(dir, "phout.log")
-	cfg := fmt.Sprintf(`pools:
-  - id: c04
+	pools, _ := strconv.Atoi(m["pools"])
+	if pools < 1 {
+		pools = 1
+	}
+	cfg := "pools:\n"
+	var phouts []string
+	for k := 0; k < pools; k++ {
+		phout := filepath.Join(dir, fmt.Sprintf("phout%d.log", k))
+		phouts = append(phouts, phout)
+		cfg += fmt.Sprintf(`  - id: c04p%d
     gun:
       type: http
       target: %s
@@ -114,12 +124,12 @@ func runProc(m map[string]string) string {
     startup:
       type: once
       times: 1
-%slog:
-  level: error
-`, ln.Addr().String(), phout, times, opt)
+%s`, k, ln.Addr().String(), phout, times, opt)
+	}
+	cfg += "log:\n  level: error\n"
 	cfgPath := filepath.Join(dir, "load.yaml")
 	if err := os.WriteFile(cfgPath, []byte(cfg), 0o644); err != nil {
-		return fmt.Sprintf("rc=config total=%d fired=0 disc=0 bad=0 served=0", times)
+		return fmt.Sprintf("rc=config total=%d fired=0 disc=0 bad=0 served=0 mindisc=0", times)
 	}
 	ctx, cancel := context.WithTimeout(context.Background(), time.Duration(times*lat+60000)*time.Millisecond)
 	defer cancel()
@@ -138,28 +148,35 @@ func runProc(m map[string]string) string {
 			rc = "start"
 		}
 	}
-	fired, disc, bad := 0, 0, 0
-	if b, err := os.ReadFile(phout); err == nil {
-		for _, line := range strings.Split(string(b), "\n") {
-			f := strings.Split(line, "\t")
-			if len(f) < 12 {
-				continue
-			}
-			tag := f[1]
-			if i := strings.IndexByte(tag, '#'); i >= 0 {
-				tag = tag[:i]
-			}
-			isTag, isNet := tag == "discarded", f[10] == "777"
-			switch {
-			case isTag && isNet:
-				disc++
-			case isTag || isNet:
-				disc++
-				bad++
-			default:
-				fired++
+	fired, disc, bad, mindisc := 0, 0, 0, -1
+	for _, phout := range phouts {
+		pd := 0
+		if b, err := os.ReadFile(phout); err == nil {
+			for _, line := range strings.Split(string(b), "\n") {
+				f := strings.Split(line, "\t")
+				if len(f) < 12 {
+					continue
+				}
+				tag := f[1]
+				if i := strings.IndexByte(tag, '#'); i >= 0 {
+					tag = tag[:i]
+				}
+				isTag, isNet := tag == "discarded", f[10] == "777"
+				switch {
+				case isTag && isNet:
+					pd++
+				case isTag || isNet:
+					pd++
+					bad++
+				default:
+					fired++
+				}
 			}
 		}
+		disc += pd
+		if mindisc < 0 || pd < mindisc {
+			mindisc = pd
+		}
 	}
-	return fmt.Sprintf("rc=%s total=%d fired=%d disc=%d bad=%d served=%d", rc, times, fired, disc, bad, served.Load())
+	return fmt.Sprintf("rc=%s total=%d fired=%d disc=%d bad=%d served=%d mindisc=%d", rc, times*pools, fired, disc, bad, served.Load(), mindisc)
 }
